@@ -53,7 +53,7 @@ let parse_op t : op6 =
     let ids = rep k (fun () -> num t) in
     Base (OpSelectChange (ids, a, e))
   | "build" -> Base OpBuild
-  | "x" -> let tag = next t in let n = num t in Aux ((tag = "ref"), n)
+  | "x" -> let tag = next t in let n = num t in Aux (n_of_int (match tag with "ref" -> 1 | "coll" -> 2 | _ -> 0), n)
   | x -> failwith ("syntax: op " ^ x)
 
 type scenario = { cfg : config; sc : scn; utxos : (n * value) list; ops : op6 list; za : z; zb : z; pr : prices }
@@ -182,7 +182,7 @@ let () = run_driver (fun toks impl_toks ->
       | o :: r, t :: r' -> (o, t) :: zip r r'
       | o :: r, [] -> (o, bad_rec) :: zip r []
       | [], _ -> [] in
-    let r0 = { r_st = new_state sc.cfg; r_ref = n_of_int 0; r_bal = None } in
+    let r0 = { r_st = new_state sc.cfg; r_ref = n_of_int 0; r_bal = None; r_coll = false; r_sdh = false } in
     let ((rs, r), checked) = run_ops6 sc.sc sc.utxos (zip sc.ops im.i_recs) r0 (n_of_int 0) in
     let st = r.r_st in
     let b = Buffer.create 512 in
@@ -195,7 +195,7 @@ let () = run_driver (fun toks impl_toks ->
     List.iter (fun (id, _) -> Buffer.add_string b (" " ^ string_of_n id)) st.s_inputs;
     Buffer.add_string b (Printf.sprintf " FIN %s %s " (opt_s (model_full_size sc.sc r im.i_fin_k)) (opt_s (model_min_fee_pub sc.sc r im.i_fin_k)));
     Buffer.add_string b im.i_tail;
-    ignore checked;
+    (if Sys.getenv_opt "C06_COUNT" <> None then prerr_endline (Printf.sprintf "checked %s" (string_of_n checked)));
     let (uns, slack, bind) = (match r.r_bal with
         | Some (s, bd) -> (im.i_unsafe, s, bd)
         | None -> (None, true, false)) in
